@@ -321,8 +321,12 @@ func suiteRefactor(c *Ctx) error {
 				vn = j.v.nameOf(short[:i]) + short[i:]
 			}
 			vn = "genmod." + vn
-			if !strings.HasPrefix(name, "genmod.") { // methods: (*genmod.T).M
-				vn = j.v.nameOf(name)
+			if !strings.HasPrefix(name, "genmod.") { // methods: (*genmod.T).M, their closures (*genmod.T).M$1$2
+				if i := strings.Index(name, "$"); i >= 0 {
+					vn = j.v.nameOf(name[:i]) + name[i:]
+				} else {
+					vn = j.v.nameOf(name)
+				}
 			}
 			g, ok := got[vn]
 			c.Res.Evaluations++
